@@ -160,7 +160,9 @@ def consistency(g, label: str = "consistency") -> None:
             mon.skip(label + ".inverse", "GCP box lies outside the hull of its control points")
             inside = None
         err_map_px = float(np.abs((Ap @ (back - probes).T))[:, inside].max()) if inside is not None else 0.0
-        tol_px = 1e-6 * max(nx, ny, 64) + 20 * (rp + rw / res) + 0.5 * nonaff
+        # forward and inverse mappings are two independently fitted polynomials: between the control points they disagree by about the distance of the control points from
+        # an affine relation (thorough seed 6: 1.03 x nonaff with 9 jittered points); 4 x leaves errors of a pixel or more (wrong axis, ignored view) far outside
+        tol_px = 1e-6 * max(nx, ny, 64) + 20 * (rp + rw / res) + 4.0 * nonaff
         ok = bool(np.isfinite(W_lib).all()) and err_map_px <= tol_px
         mon.obs["gcp_exactly_affine" if nonaff < 1e-6 else "gcp_non_affine"] += 1
     mon.check(ok, label + ".inverse", lambda: wit({"max_roundtrip_px": float(np.abs(back - probes).max()), "tol_px": tol_px}), key="pix2wld-wld2pix-not-inverse", cls=fam, sig=sig, sample=wit())
@@ -205,7 +207,13 @@ def consistency(g, label: str = "consistency") -> None:
             if ex2 is None:
                 wx, wy = np.asarray(pw[0], dtype="float64"), np.asarray(pw[1], dtype="float64")
                 sx, sy = math.hypot(wx[1] - wx[0], wy[1] - wy[0]), math.hypot(wx[3] - wx[2], wy[3] - wy[2])
-                okr = sx > 0 and sy > 0 and 0.75 <= abs(r.x) / sx <= 1.33 and 0.75 <= abs(r.y) / sy <= 1.33
+                # the reported size is that of the best-fitting affine, the measured one is local: control points that are not affinely related (residual `nonaff`, in
+                # control-point pixels) move a step of L control-point pixels by up to 2 * nonaff, i.e. by the fraction 2 * nonaff / L
+                _rw, _rp, nonaff = gcp_residual(g)
+                va = aff_of(g)
+                Lx, Ly = max(math.hypot(va[0], va[3]), 1e-300), max(math.hypot(va[1], va[4]), 1e-300)
+                bx_, by_ = 1.33 + 2 * nonaff / Lx, 1.33 + 2 * nonaff / Ly
+                okr = sx > 0 and sy > 0 and 1 / bx_ <= abs(r.x) / sx <= bx_ and 1 / by_ <= abs(r.y) / sy <= by_
                 mon.check(okr, label + ".resolution", lambda: wit({"resolution": [r.x, r.y], "one_pixel_step_maps_to": [sx, sy]}), key="gcp-resolution", cls=fam, sig=sig)
     if linear:
         # (4) coordinate labels
